@@ -10,7 +10,7 @@ use slotted_egraphs::*;
 use std::collections::HashMap;
 
 /// (name, lhs, rhs, explicit side conditions (slot, var)) — must equal `Rules.pool` in the Lean model
-pub const POOL: [(&str, &str, &str, &[(&str, &str)]); 33] = [
+pub const POOL: [(&str, &str, &str, &[(&str, &str)]); 34] = [
     ("add-comm", "(add ?a ?b)", "(add ?b ?a)", &[]),
     ("add-assoc", "(add (add ?a ?b) ?c)", "(add ?a (add ?b ?c))", &[]),
     ("mul-comm", "(mul ?a ?b)", "(mul ?b ?a)", &[]),
@@ -44,6 +44,7 @@ pub const POOL: [(&str, &str, &str, &[(&str, &str)]); 33] = [
     ("var-factor", "(add (mul (var $a) (var $b)) (var $a))", "(mul (var $a) (add (var $b) 1))", &[]),
     ("sum-infactor-var", "(mul ?a (sum $i (mul (var $i) ?b)))", "(sum $i (mul (var $i) (mul ?a ?b)))", &[]),
     ("let-intro", "(mul ?a ?b)", "(let $x (mul (mul (var $x) ?a) ?b) 1)", &[]),
+    ("let-let-subst", "(let $x (let $y ?b ?f) ?e)", "?b[(var $y) := ?f][(var $x) := ?e]", &[]),
 ];
 
 pub const BAD_POOL: [(&str, &str, &str, &[(&str, &str)]); 2] = [
@@ -491,6 +492,29 @@ pub fn run(ctx: &mut Ctx) {
             start = if rng.chance(1, 2) { vec![t] } else { vec![t, var(a)] };
             force.push("let-subst");
             force_ext = allow_extraction && rng.chance(2, 3);
+        }
+        if !bad && force.is_empty() && rng.chance(1, 10) {
+            // two nested bindings whose inner value mentions the outer variable, inlined by ONE rule with chained substitutions:
+            // the outer substitution has to reach the copies of `?f` the inner one put in
+            let var = |c: u32| ATerm { v: 2, fields: vec![CField::Slot(c)], children: vec![] };
+            let bin = |v: usize, a: ATerm, b: ATerm| ATerm { v, fields: vec![CField::App, CField::App], children: vec![a, b] };
+            let lt = |x: u32, b: ATerm, e: ATerm| ATerm { v: 3, fields: vec![CField::Bind(x, Box::new(CField::App)), CField::App], children: vec![b, e] };
+            let num = |s: &str| ATerm { v: 15, fields: vec![CField::Lit(s.into())], children: vec![] };
+            let (x, y, a) = (10u32, 14u32, 4u32);
+            let body = match rng.below(3) {
+                0 => bin(4, var(y), var(y)),
+                1 => bin(5, var(y), bin(4, var(x), var(y))),
+                _ => bin(4, bin(5, var(y), var(a)), var(y)),
+            };
+            let f = match rng.below(3) {
+                0 => bin(5, var(x), num("2")),
+                1 => bin(4, var(x), var(a)),
+                _ => bin(5, var(x), var(x)),
+            };
+            let e = if rng.chance(1, 2) { var(a) } else { num("3") };
+            let t = lt(x, lt(y, body, f.clone()), e);
+            start = if rng.chance(1, 2) { vec![t] } else { vec![t, bin(4, bin(5, var(a), num("2")), bin(5, var(a), num("2")))] };
+            force.push("let-let-subst");
         }
         let mut solo = false;
         if !bad && force.is_empty() && rng.chance(1, 12) {
